@@ -3,12 +3,14 @@ mod common;
 mod driver;
 mod gen;
 mod iofault;
+mod jsonord;
 mod model;
 mod monitors;
 mod mutate;
 mod rng;
 mod selfcheck;
 mod spec;
+mod tarx;
 mod view;
 
 use driver::Tier;
